@@ -1,7 +1,7 @@
 (* C13 — the sampling-violation counter counts exactly the out-of-tolerance
    gaps, the period being expressed in the unit of the time-stamps. *)
 From Coq Require Import QArith List.
-From RV Require Import Jitter.
+From RV Require Import Jitter JitterFacts.
 From RV Require Import Units PyUnits UnitsGen UnitsGenCorrect.
 From RV Require Val Syntax Rho Offline ListFacts OfflineCorrect Online OnlineCorrect.
 Import ListNotations.
@@ -70,6 +70,34 @@ Theorem C13_generated_counter :
      else Ret (set_sampling_tolerance_ (set_sampling_period_unit_ (set_sampling_period_ s p) u) tol)).
 Proof. exact @counter_gen_refines. Qed.
 Print Assumptions C13_generated_counter.
+
+(* what "counts exactly" implies for a user who reads the counter while the monitor runs: each update adds the verdict of the
+   one new gap and nothing else (so the counter never decreases and never jumps by more than one), it never exceeds the number of
+   gaps, it is 0 exactly when every gap is within tolerance, and it does not depend on where the time axis starts *)
+Theorem C13_counter_is_incremental :
+  forall (p tol norm : Q) (ts : list Q) (a t : Q), 0 < norm ->
+    jviol (jrun p tol norm ((ts ++ [a]) ++ [t])) =
+    (jviol (jrun p tol norm (ts ++ [a])) + (if out_of_tol (p / norm) tol (t - a) then 1 else 0))%nat.
+Proof. exact jrun_step_increment. Qed.
+Print Assumptions C13_counter_is_incremental.
+
+Theorem C13_counter_monotone_bounded :
+  forall (p tol norm : Q) (ts us : list Q), 0 < norm ->
+    and (le (jviol (jrun p tol norm ts)) (jviol (jrun p tol norm (ts ++ us))))
+        (le (jviol (jrun p tol norm ts)) (length ts - 1)%nat).
+Proof. intros p tol norm ts us Hn. split; [apply jrun_mono|apply jrun_bounded]; exact Hn. Qed.
+Print Assumptions C13_counter_monotone_bounded.
+
+Theorem C13_zero_iff_all_within_tolerance :
+  forall (P tol : Q) (ts : list Q),
+    count_bad P tol ts = 0%nat <-> forall g, In g (gaps ts) -> out_of_tol P tol g = false.
+Proof. exact count_bad_zero_iff. Qed.
+Print Assumptions C13_zero_iff_all_within_tolerance.
+
+Theorem C13_translation_invariant :
+  forall (P tol c : Q) (ts : list Q), count_bad P tol (shift c ts) = count_bad P tol ts.
+Proof. exact count_bad_shift. Qed.
+Print Assumptions C13_translation_invariant.
 
 Example C13_nonvacuous :
   (* period 500 ms, default unit s: norm = 10^9/10^6; stamps 0, 0.5, 1.25, 1.75: one bad gap *)
